@@ -65,9 +65,17 @@ func makeURLKey(u *url.URL) string {
 	}
 	// RFC 3986 §6.2.2.3: Path normalization (dot-segment removal) is handled by
 	// [url.URL.ResolveReference], which uses the RFC 3986 §5.2.4 algorithm.
-	normalized := u
+	// Percent-encoded unreserved characters are decoded first (RFC 3986 §6.2.2.2): "%2e%2e" is a
+	// dot segment like "..", and is removed like it.
+	ref := *u
+	if escaped := normalizePercentEncoding(u.EscapedPath()); escaped != u.EscapedPath() {
+		if unescaped, err := url.PathUnescape(escaped); err == nil {
+			ref.Path, ref.RawPath = unescaped, escaped
+		}
+	}
+	normalized := &ref
 	if base, err := url.Parse(u.Scheme + "://" + u.Host); err == nil {
-		normalized = base.ResolveReference(u)
+		normalized = base.ResolveReference(&ref)
 	}
 
 	// RFC 3986 §6.2.2.1: Scheme is lowercased (already done by [url.Parse]).
